@@ -360,12 +360,37 @@ func c19(r *core.Report) {
 			okMerged := false
 			whyM := "no single emission of the collected deeper buckets found"
 			if merged != nil {
+				var accs []*ssa.Phi
 				for _, a := range merged.call.Call.Args {
-					ph, isPhi := core.Through(a).(*ssa.Phi)
-					if !isPhi {
-						continue
+					if ph, isPhi := core.Through(a).(*ssa.Phi); isPhi {
+						accs = append(accs, ph)
+						// a guard around the loop merges the loop's accumulator with the empty slice
+						for _, e := range ph.Edges {
+							if p2, ok := core.Through(e).(*ssa.Phi); ok {
+								accs = append(accs, p2)
+							}
+						}
 					}
-					// the accumulator phi lives in a loop header together with an index phi
+				}
+				for _, ph := range accs {
+					// form 2: `for _, b := range kc.buckets[lz+1:]` — the loop indexes a sub-slice of the
+					// buckets that starts at lz+1 and runs to the end
+					for _, in2 := range core.AllInstrs(forEach) {
+						ia, ok := in2.(*ssa.IndexAddr)
+						if !ok || !inLoopWith(ia.Block(), ph) {
+							continue
+						}
+						sl, ok := core.Through(ia.X).(*ssa.Slice)
+						if !ok || !isBuckets(sl.X) || sl.High != nil || sl.Low == nil {
+							continue
+						}
+						if lo, isB := core.Through(sl.Low).(*ssa.BinOp); isB && lo.Op == token.ADD && core.Through(lo.X) == lzVal {
+							if k, isK := core.ConstInt(lo.Y); isK && k == 1 {
+								okMerged = true
+							}
+						}
+					}
+					// form 1: the accumulator phi lives in a loop header together with an index phi
 					for _, ip := range idxPhis {
 						if ip.Block() != ph.Block() {
 							continue
